@@ -68,6 +68,26 @@ def history_program(history):
     return {'encoding': MAIN, 'calls': calls}
 
 
+def overridden_program(history):
+    """The same history where every container names a codec Python does not
+    have, and every content section declares its own: the own encoding
+    wins, so the container's name is never needed."""
+    prog = history_program(history)
+    calls = []
+
+    for op, kw in prog['calls']:
+        kw = dict(kw)
+
+        if op in ('change', 'file'):
+            kw['encoding'] = 'x-no-such-codec'
+        elif op != 'diff':
+            kw['encoding'] = A
+
+        calls.append([op, kw])
+
+    return {'encoding': MAIN, 'calls': calls}
+
+
 def nontrivial_history(program):
     """A change follows a file inside a change that declared an encoding, or
     sibling files with different declarations."""
@@ -248,7 +268,7 @@ SHAPES = {
 def all_histories(nchanges, max_files):
     per_change = []
 
-    for nf in range(1, max_files + 1):
+    for nf in range(0, max_files + 1):
         for cenc in CHOICES:
             for fencs in itertools.product(CHOICES, repeat=nf):
                 per_change.append([cenc, list(fencs)])
@@ -286,6 +306,10 @@ def run_chunk(chunk, st):
         program = history_program(history)
         res = judge(program, foreign_le=True)
         evals += 1
+
+        if res is None and len(history) <= 2:
+            res = judge(overridden_program(history))
+            evals += 1
 
         if nontrivial_history(program):
             nontrivial += 1
